@@ -197,6 +197,18 @@ def shrink(c):
         yield dict(c, K=c["K"] - 1)
 
 
+# functions of the implementation this property is anchored in: their line coverage under the correspondence cases is
+# measured on the staged copy and reported in the evidence (implementation_line_coverage)
+ANCHORS = [
+    "datascope/importance/oracle.py:compile",
+    "datascope/importance/oracle.py:ShapleyOracle.__init__",
+    "datascope/importance/oracle.py:ShapleyOracle.query",
+    "datascope/utility/add.py:ADD.get_update_location",
+    "datascope/utility/add.py:ADD.update",
+    "datascope/importance/oracle.py:ATally._clip",
+    "datascope/importance/oracle.py:ATally.__index__",
+]
+
 MANIFEST = {
     "text": "Proof: C09_oracle_exact -- the executable model of ShapleyOracle.__init__/query on the ADD model (increments at "
             "the compiled row locations of every row no farther than the boundary, invalidating value 0 of the boundary "
